@@ -119,6 +119,10 @@ Definition dist2 (a b : vec3 R) : R :=
 Ltac gen_full :=
   cbv beta iota zeta delta -[c0 c1 cadd cmul csub copp cdiv csqrt cabs cmax cmin csin ccos cpi cltb cleb ceqb cofZ cofQ
     Rle Rlt Rge Rgt Rminus Rdiv Rmin Rmax Rabs Rsqr IZR sqrt R_carrier Q_carrier].
+(* the same, but List.map stays folded: element-wise array functions become  map (fun v => ...) xs *)
+Ltac gen_full_keep_map :=
+  cbv beta iota zeta delta -[c0 c1 cadd cmul csub copp cdiv csqrt cabs cmax cmin csin ccos cpi cltb cleb ceqb cofZ cofQ
+    Rle Rlt Rge Rgt Rminus Rdiv Rmin Rmax Rabs Rsqr IZR sqrt map R_carrier Q_carrier].
 Ltac gen_full_in H :=
   cbv beta iota zeta delta -[c0 c1 cadd cmul csub copp cdiv csqrt cabs cmax cmin csin ccos cpi cltb cleb ceqb cofZ cofQ
     Rle Rlt Rge Rgt Rminus Rdiv Rmin Rmax Rabs Rsqr IZR sqrt R_carrier Q_carrier] in H.
